@@ -33,12 +33,64 @@ pub struct TestFn {
     pub w: Vec<usize>,
 }
 
+/// `(borrows, borrow_muts)` of the library's own read declaration `R<Di>`
+fn decl_r(i: usize) -> (TypeIds, TypeIds) {
+    fn of<T: 'static>(t: &T) -> (TypeIds, TypeIds) {
+        let r = fn_graph::R::new(t);
+        (DataAccessDyn::borrows(&r), DataAccessDyn::borrow_muts(&r))
+    }
+    match i {
+        0 => of(&D0),
+        1 => of(&D1),
+        2 => of(&D2),
+        3 => of(&D3),
+        4 => of(&D4),
+        _ => of(&D5),
+    }
+}
+
+/// `(borrows, borrow_muts)` of the library's own write declaration `W<Di>`
+fn decl_w(i: usize) -> (TypeIds, TypeIds) {
+    fn of<T: 'static>(t: &mut T) -> (TypeIds, TypeIds) {
+        let w = fn_graph::W::new(t);
+        (DataAccessDyn::borrows(&w), DataAccessDyn::borrow_muts(&w))
+    }
+    match i {
+        0 => of(&mut D0),
+        1 => of(&mut D1),
+        2 => of(&mut D2),
+        3 => of(&mut D3),
+        4 => of(&mut D4),
+        _ => of(&mut D5),
+    }
+}
+
+// The declarations of a test function are assembled from the library's own declaration helpers
+// (`R<T>`, `W<T>`, `()`, `&()`), so that those are part of every build the harness observes.
 impl DataAccessDyn for TestFn {
     fn borrows(&self) -> TypeIds {
-        self.r.iter().map(|&i| tid(i)).collect()
+        let mut out = TypeIds::new();
+        for &i in &self.r {
+            out.extend(decl_r(i).0);
+        }
+        for &i in &self.w {
+            out.extend(decl_w(i).0);
+        }
+        out.extend(DataAccessDyn::borrows(&()));
+        out.extend(DataAccessDyn::borrows(&&()));
+        out
     }
     fn borrow_muts(&self) -> TypeIds {
-        self.w.iter().map(|&i| tid(i)).collect()
+        let mut out = TypeIds::new();
+        for &i in &self.w {
+            out.extend(decl_w(i).1);
+        }
+        for &i in &self.r {
+            out.extend(decl_r(i).1);
+        }
+        out.extend(DataAccessDyn::borrow_muts(&()));
+        out.extend(DataAccessDyn::borrow_muts(&&()));
+        out
     }
 }
 
@@ -144,12 +196,30 @@ pub fn apply_ops(ops: &[Op], res_prefix: &str) -> (FnGraphBuilder<TestFn>, Vec<S
     let mut b = FnGraphBuilder::<TestFn>::new();
     let mut out = vec![];
     let mut n = 0usize;
-    for op in ops {
+    let mut skip = 0usize;
+    for (oi, op) in ops.iter().enumerate() {
+        if skip > 0 {
+            skip -= 1;
+            continue;
+        }
         let line = match op {
             Op::Fn { tag, r, w } => {
-                let id = b.add_fn(TestFn { idx: n, tag: *tag, r: r.clone(), w: w.clone() });
-                n += 1;
-                format!("res ok {}", id.index())
+                // every third function that is directly followed by another one goes through the
+                // batch form `add_fns` together with its successor (same result lines)
+                if let (true, Some(Op::Fn { tag: t2, r: r2, w: w2 })) = (n % 3 == 1, ops.get(oi + 1)) {
+                    let ids = b.add_fns([
+                        TestFn { idx: n, tag: *tag, r: r.clone(), w: w.clone() },
+                        TestFn { idx: n + 1, tag: *t2, r: r2.clone(), w: w2.clone() },
+                    ]);
+                    n += 2;
+                    skip = 1;
+                    out.push(format!("{}res ok {}", res_prefix, ids[0].index()));
+                    format!("res ok {}", ids[1].index())
+                } else {
+                    let id = b.add_fn(TestFn { idx: n, tag: *tag, r: r.clone(), w: w.clone() });
+                    n += 1;
+                    format!("res ok {}", id.index())
+                }
             }
             Op::Edge { k, a, b: c } => {
                 let r = catch_unwind(AssertUnwindSafe(|| match k {
@@ -194,9 +264,19 @@ pub fn graph_edges(g: &FnGraph<TestFn>) -> Vec<(usize, usize, Edge)> {
 
 /// `build()` under `catch_unwind`; returns the graph and the `built …` line.
 pub fn build(b: FnGraphBuilder<TestFn>) -> (Option<FnGraph<TestFn>>, String) {
+    build_for("", &[Op::Fn { tag: 0, r: vec![], w: vec![] }], b)
+}
+
+/// like `build`; a case without functions whose id hashes to an odd number gets its (empty) graph
+/// from `FnGraph::new()` instead of the builder, so that both constructions of the empty graph are
+/// run (deterministic in the case id, so a replay takes the same path)
+pub fn build_for(id: &str, ops: &[Op], b: FnGraphBuilder<TestFn>) -> (Option<FnGraph<TestFn>>, String) {
+    let no_fns = ops.iter().all(|o| !matches!(o, Op::Fn { .. }));
+    let h = id.bytes().fold(0xcbf29ce484222325u64, |h, c| (h ^ c as u64).wrapping_mul(0x100000001b3));
+    let use_new = no_fns && h % 2 == 1;
     let _ = fn_graph::verif_hooks::take_rank_pops();
     let _ = fn_graph::verif_hooks::take_path_checks();
-    let r = catch_unwind(AssertUnwindSafe(move || b.build()));
+    let r = catch_unwind(AssertUnwindSafe(move || if use_new { FnGraph::new() } else { b.build() }));
     let pops = fn_graph::verif_hooks::take_rank_pops();
     let checks = fn_graph::verif_hooks::take_path_checks();
     match r {
